@@ -127,6 +127,11 @@ func build(tier string) []*vkit.Scenario {
 		{qcfg{f: 2, writers: []string{"m", "s"}, failAt: 1, closeBy: "none"}, 2, 3},
 		{qcfg{f: 2, writers: []string{"mm"}, failAt: 4, closeBy: "eof"}, 2, 3},
 		{qcfg{f: 2, writers: []string{"m"}, closeBy: "eof", inbound: 1, echo: true}, 2, 3},
+		// the same Upgrade path without the send queue (BlockingModAsyncWrite=false)
+		{qcfg{f: 2, direct: true, writers: []string{"m", "m"}, closeBy: "none"}, 2, 3},
+		{qcfg{f: 2, direct: true, writers: []string{"m", "m"}, closeBy: "eof"}, 2, 3},
+		{qcfg{f: 2, direct: true, writers: []string{"m", "p"}, closeBy: "close", inbound: 1, echo: true}, 1, 2},
+		{qcfg{f: 2, direct: true, writers: []string{"mc", "m"}, closeBy: "none", inbound: 2, early: true}, 2, 3},
 	} {
 		q := x.q
 		q.p = x.pq
